@@ -49,7 +49,10 @@ def response_forms(df, meta, rng):
              ("cnt", "numeric", df["cnt"].to_numpy(dtype=float)),
              ("np.log(w)", "numeric", np.log(df["w"].to_numpy(dtype=float))),
              ("I(x + 1)", "numeric", df["x"].to_numpy(dtype=float) + 1),
-             ("`col 1`", "numeric", df["col 1"].to_numpy(dtype=float))]
+             ("`col 1`", "numeric", df["col 1"].to_numpy(dtype=float)),
+             # calls whose callee / argument only exists in extra_namespace
+             ("dbl(y)", "numeric", df["y"].to_numpy(dtype=float) * 2),
+             ("shift1(y, by=3)", "numeric", df["y"].to_numpy(dtype=float) + 3)]
     for col in ("ybig", "ybigN"):
         forms.append((col, "numeric-exact", [int(v) for v in df[col].tolist()]))
     for col in ("s", "o", "cu", "co", "yb"):
@@ -135,6 +138,12 @@ def judge(case, m):
     df["ybig"] = np.array(bigs, dtype="int64")
     df["ybigN"] = pd.array(bigs, dtype="Int64")
     ns = D.namespace(meta)
+    # a bare level name in y[level] is a level, not a variable: strings called like the levels are visible from the caller
+    for col in ("s", "o", "cu", "co", "yb"):
+        lv = [l for l in meta[col]["levels"] if isinstance(l, str)]
+        for j, l in enumerate(lv):
+            if l.isidentifier() and l not in df.columns and l not in ns:
+                ns[l] = lv[(j + 1) % len(lv)]
     rhs_case = {**case, "resp": None}
     rhs = D.formula_text(rhs_case)
     rng = random.Random(case["frame"]["seed"] + 15)
